@@ -349,7 +349,70 @@ func (ex *Exec) runDefers(st *State) {
 	}
 }
 
+// goInlineSafe: the closure's captured locals are not assigned in the closure
+// nor anywhere else in the enclosing body after the go statement.
+func (ex *Exec) goInlineSafe(s *ast.GoStmt, lit *ast.FuncLit) bool {
+	captured := map[types.Object]bool{}
+	ast.Inspect(lit.Body, func(x ast.Node) bool {
+		if id, ok := x.(*ast.Ident); ok {
+			if o, ok := ex.Info.Uses[id].(*types.Var); ok && !o.IsField() && o.Pkg() != nil && o.Parent() != o.Pkg().Scope() {
+				if o.Pos() < lit.Pos() || o.Pos() >= lit.End() {
+					captured[o] = true
+				}
+			}
+		}
+		return true
+	})
+	safe := true
+	ast.Inspect(lit.Body, func(x ast.Node) bool {
+		switch u := x.(type) {
+		case *ast.ForStmt, *ast.RangeStmt, *ast.SelectStmt, *ast.SendStmt:
+			safe = false
+		case *ast.UnaryExpr:
+			if u.Op == token.ARROW {
+				safe = false
+			}
+		}
+		return true
+	})
+	check := func(root ast.Node, after token.Pos) {
+		ast.Inspect(root, func(x ast.Node) bool {
+			var lhs []ast.Expr
+			switch a := x.(type) {
+			case *ast.AssignStmt:
+				if a.Pos() >= after {
+					lhs = a.Lhs
+				}
+			case *ast.IncDecStmt:
+				if a.Pos() >= after {
+					lhs = []ast.Expr{a.X}
+				}
+			}
+			for _, l := range lhs {
+				if id, ok := ast.Unparen(l).(*ast.Ident); ok {
+					if o := ex.Info.ObjectOf(id); o != nil && captured[o] {
+						safe = false
+					}
+				}
+			}
+			return true
+		})
+	}
+	check(lit.Body, token.NoPos)
+	if ex.unitBody != nil {
+		check(ex.unitBody, s.End())
+	}
+	return safe
+}
+
 func (ex *Exec) goStmt(st *State, s *ast.GoStmt) {
+	if lit, ok := ast.Unparen(s.Call.Fun).(*ast.FuncLit); ok && len(s.Call.Args) == 0 && ex.goInlineSafe(s, lit) {
+		ex.runHooks(st, "go", "func", nil, nil, s.Pos())
+		ex.W.Trusted["goroutine literal in "+ex.FName+" verified inline at its spawn point (its captured locals are not assigned by it or after the go statement; effects on lock-protected state go through lock invariants)"] = true
+		fn := ex.expr(st, s.Call.Fun)
+		ex.apply(st, fn, nil, s.Call)
+		return
+	}
 	fn := ex.expr(st, s.Call.Fun)
 	var args []*Val
 	for _, a := range s.Call.Args {
